@@ -144,12 +144,16 @@ class Machine:
         ref = holder.getPayloadRef(*pt)
         if n == self.d:
             act = o["mode"] % 5
+            val = o["val"]
+            if o["sel"][3] % 4 == 3:
+                # the operand is a whole element taken out of a fiber by position (z_ref += a[0])
+                val = Fiber([1], [o["val"]])[0]
             if act == 1:
-                ref <<= o["val"]
+                ref <<= val
             elif act == 2:
-                ref += o["val"]
+                ref += val
             elif act == 3:
-                ref *= o["val"]
+                ref *= val
             elif act == 4:
                 ref <<= self.default
         return ("ok", {"point": pt})
